@@ -44,6 +44,34 @@ def run(ctx, model_ok):
         if not bad_here:
             cases.append(cc.to_case(ws, env, r))
             idx.append(i)
+    # the same records through feed(): every record of a thread between a START and its END is in the window its decoder
+    # sees, whether or not that record has a decoder of its own (windows by the independent statement of C04)
+    from . import pairing_common as pc
+    uni = pc.Universe()
+    sres = vlib.run_impl('run_composite.py', {'cases': cases_ws, 'stream': True})['results']
+    for ws, r in zip(cases_ws, sres):
+        flat = [e for w in ws for e in w]
+        hist = [[e[3], e[0], e[4], e[1]] for e in flat]
+        ctx.evaluations += len(flat)
+        for i, (win, got) in enumerate(zip(pc.spec_outputs(hist, uni), r['stream'])):
+            if win is None:
+                exp = None
+            else:
+                w = [flat[j] for j in win]
+                try:
+                    exp = cc.oracle_decode(w, env)
+                except Exception:
+                    continue
+                if exp[:1] == [4] and got == [4, 0]:
+                    continue            # the decoder rejects the window (C20 windows section judges that)
+            if got != exp and not (got is not None and exp is not None and exp[:1] == [0] and got[:1] == [0]):
+                ctx.failing.append({'input': {'windows': ws, 'stream': True, 'record': i}, 'expected': exp, 'actual': got,
+                                    'why': 'fed through feed(), the composite trace handed out at this record does not reflect the '
+                                           'records of its thread between its START and END'})
+                break
+        if ctx.failing and ctx.failing[-1]['input'].get('stream'):
+            if len([f for f in ctx.failing if f['input'].get('stream')]) >= 5:
+                break
     ctx.samples = [{'window': cases_ws[0][0], 'impl_decode': res[0]['decodes'][0]}]
     if model_ok:
         bad, errors = vlib.run_model_cases('C20', cc.HEADER, 'ccase', 'ccheck', cases, per_file=25)
@@ -57,8 +85,10 @@ def run(ctx, model_ok):
 def replay(payload):
     env = cc.Env()
     ws = payload['input']['windows']
-    r = vlib.run_impl('run_composite.py', {'cases': [ws]})['results'][0]
+    r = vlib.run_impl('run_composite.py', {'cases': [ws], 'stream': bool(payload['input'].get('stream'))})['results'][0]
     print('implementation:', r['decodes'], r['errors'])
+    if payload['input'].get('stream'):
+        print('through feed(), per record:', r['stream'])
     print('property demands:', [cc.oracle_decode(w, env) for w in ws])
     rc, out = vlib.eval_in_coq('C20', cc.HEADER, [f'ccheck {cc.to_case(ws, env, r)}'])
     print('model agrees with implementation:', out.strip())
